@@ -643,40 +643,28 @@ theorem findType_mem (types : List Elem) (n : String) (t : Elem) (h : findType t
   unfold findType at h
   exact List.mem_of_find?_eq_some h
 
-/-- (finding C08-char-enum-valueRef) sbeppc decides "this enum is a char enum" on the
-    `encodingType` *string*; the specification on the primitive type it resolves to.
-    They agree unless a char enum is declared over a named `<type primitiveType="char">`. -/
-def CharEnumsPlain (types : List Elem) : Prop :=
-  ∀ n enc o vs a, Elem.enum n enc o vs a ∈ types →
-    ((underlyingPrim types enc).getD enc == "char") = (enc == "char")
+theorem enumPrim_eq (types : List Elem) (enc : String) :
+    getEnumPrimitiveType types enc = (underlyingPrim types enc).getD enc := by
+  unfold getEnumPrimitiveType underlyingPrim
+  rw [isPrimitive_eq, lookup_eq]
+  by_cases hp : isPrim enc = true
+  · simp [hp]
+  · simp only [hp, Bool.not_false, ↓reduceIte, Bool.false_eq_true]
+    cases findType types enc with
+    | none => rfl
+    | some t => cases t <;> rfl
 
-theorem valueRefFits_eq (hfp : FpAgree) (types : List Elem) (hpl : CharEnumsPlain types) (r n enc prim : String)
-    (v : ValidValue) (hr : resolveValueRef types r = .ok (n, enc, v)) (hp : isPrim prim = true) :
-    valueRefFitsIntoType enc v prim = representable prim (enumValueLiteral ((underlyingPrim types enc).getD enc) v.value) := by
-  have hmem : ∃ o vs a, Elem.enum n enc o vs a ∈ types := by
-    unfold resolveValueRef at hr
-    split at hr
-    · cases hr
-    · rename_i en vn _
-      split at hr
-      · cases hr
-      · rename_i n' enc' o vs a hf
-        split at hr
-        · cases hr
-        · simp only [Except.ok.injEq, Prod.mk.injEq] at hr
-          obtain ⟨rfl, rfl, rfl⟩ := hr
-          exact ⟨o, vs, a, findType_mem _ _ _ hf⟩
-      · cases hr
-  obtain ⟨o, vs, a, hm⟩ := hmem
-  have := hpl n enc o vs a hm
+theorem valueRefFits_eq (hfp : FpAgree) (types : List Elem) (r n enc prim : String)
+    (v : ValidValue) (_hr : resolveValueRef types r = .ok (n, enc, v)) (hp : isPrim prim = true) :
+    valueRefFitsIntoType types enc v prim =
+      representable prim (enumValueLiteral ((underlyingPrim types enc).getD enc) v.value) := by
   unfold valueRefFitsIntoType enumValueLiteral firstCharAsIntString
-  rw [this]
-  by_cases hc : enc = "char"
-  · simp only [hc, beq_self_eq_true, ↓reduceIte]
+  rw [enumPrim_eq]
+  by_cases hc : ((underlyingPrim types enc).getD enc == "char") = true
+  · simp only [hc, ↓reduceIte]
     rw [valueFits_eq hfp _ _ hp]
     congr 1
-  · have : (enc == "char") = false := by simpa using hc
-    simp only [this, Bool.false_eq_true, ↓reduceIte]
+  · simp only [hc, Bool.false_eq_true, ↓reduceIte]
     rw [valueFits_eq hfp _ _ hp]
 
 theorem vOptionalValue_ok (hfp : FpAgree) (v : Option String) (prim : String) (p : Path) (hp : isPrim prim = true)
@@ -694,7 +682,7 @@ theorem singleByte_eq (prim : String) (hp : isPrim prim = true) : isSingleByteTy
   unfold primBytes
   split at hp <;> simp_all
 
-theorem vConstantValue_ok (hfp : FpAgree) (types : List Elem) (hpl : CharEnumsPlain types) (p : Path) (t : TypeDef)
+theorem vConstantValue_ok (hfp : FpAgree) (types : List Elem) (p : Path) (t : TypeDef)
     (hp : isPrim t.prim = true) (x : Unit) :
     vConstantValue types p t = .ok x ↔ constViols types p t = [] := by
   unfold constViols
@@ -725,7 +713,7 @@ theorem vConstantValue_ok (hfp : FpAgree) (types : List Elem) (hpl : CharEnumsPl
       | ok x =>
         obtain ⟨n, enc, v⟩ := x
         simp only [bind, Except.bind, need_ok]
-        rw [valueRefFits_eq hfp types hpl r n enc t.prim v hr hp]
+        rw [valueRefFits_eq hfp types r n enc t.prim v hr hp]
         cases representable t.prim (enumValueLiteral ((underlyingPrim types enc).getD enc) v.value) <;> simp
 
 
@@ -742,7 +730,7 @@ theorem filterMap_lits_nil (prim : String) (p : Path) (l : List (Option String))
     | none => rfl
     | some lit => simp [litViol, h lit hv]
 
-theorem vType_ok (hfp : FpAgree) (types : List Elem) (hpl : CharEnumsPlain types) (p : Path) (t : TypeDef) (n : Nat) :
+theorem vType_ok (hfp : FpAgree) (types : List Elem) (p : Path) (t : TypeDef) (n : Nat) :
     vType types p t = .ok n ↔
       symbolicName t.name = true ∧ typeViols types p t = [] ∧ t.length * (primBytes t.prim).getD 0 = n := by
   unfold vType typeViols
@@ -750,7 +738,7 @@ theorem vType_ok (hfp : FpAgree) (types : List Elem) (hpl : CharEnumsPlain types
   by_cases hp : isPrim t.prim = true
   · simp only [hp, true_and, Bool.not_true, Bool.false_eq_true, ↓reduceIte]
     by_cases hc : (t.presence == Presence.constant) = true
-    · simp only [hc, ↓reduceIte, vConstantValue_ok hfp types hpl p t hp _, exists_const]
+    · simp only [hc, ↓reduceIte, vConstantValue_ok hfp types p t hp _, exists_const]
     · simp only [hc, Bool.false_eq_true, ↓reduceIte]
       by_cases hl : (t.length == 1) = true
       · simp only [hl, ↓reduceIte, bind_ok, vOptionalValue_ok hfp _ _ _ hp _, exists_const, filterMap_lits_nil]
@@ -946,9 +934,9 @@ theorem vElementOffset_ok (types : List Elem) (p : Path) (e : Elem) (cur sz cur'
       · simp [hlt, eq_comm]; omega
 
 section Good
-variable (hfp : FpAgree) (types : List Elem) (hpl : CharEnumsPlain types) (k : Nat) (hk : k ≤ types.length)
+variable (hfp : FpAgree) (types : List Elem) (k : Nat) (hk : k ≤ types.length)
   (ih : ∀ vis t m, vPublic types k vis t = .ok m → sizeK types k t = some m)
-include hfp hpl hk ih
+include hfp hk ih
 
 mutual
   theorem vElemWith_good :
@@ -957,7 +945,7 @@ mutual
           sizeWith types (sizeK types k) e = some n ∧ ∀ q x, (q, x) ∈ subElems p e → ElemGood types q x
     | .type t, vis, p, n, h => by
       simp only [vElemWith] at h
-      obtain ⟨h1, h2, h3⟩ := (vType_ok hfp types hpl p t n).mp h
+      obtain ⟨h1, h2, h3⟩ := (vType_ok hfp types p t n).mp h
       have hprim : ∃ b, primBytes t.prim = some b := by
         unfold typeViols at h2
         by_cases hp : isPrim t.prim = true
@@ -1060,7 +1048,7 @@ mutual
 end
 end Good
 
-theorem vPublic_good (hfp : FpAgree) (types : List Elem) (hpl : CharEnumsPlain types) :
+theorem vPublic_good (hfp : FpAgree) (types : List Elem) :
     ∀ k, k ≤ types.length + 1 → ∀ vis t m, vPublic types k vis t = .ok m →
       sizeK types k t = some m ∧ ∀ q x, (q, x) ∈ subElems ["types", t.name] t → ElemGood types q x := by
   intro k
@@ -1069,7 +1057,7 @@ theorem vPublic_good (hfp : FpAgree) (types : List Elem) (hpl : CharEnumsPlain t
   | succ k ih =>
     intro hk vis t m h
     simp only [vPublic] at h
-    have := vElemWith_good hfp types hpl k (by omega) (fun vis t m h => (ih (by omega) vis t m h).1) t vis _ m h
+    have := vElemWith_good hfp types k (by omega) (fun vis t m h => (ih (by omega) vis t m h).1) t vis _ m h
     exact ⟨by simpa [sizeK] using this.1, this.2⟩
 
 theorem anyOrder_ok (errs : List Diag) (u : Unit) : anyOrder errs = .ok u ↔ errs = [] := by
@@ -1093,7 +1081,7 @@ theorem firstErrors_nil {α} (f : α → R Nat) (l : List α) :
 /-- after a successful `validate_types` every encoding of the schema obeys every
     rule that concerns it alone, and every public encoding has the size the
     specification assigns -/
-theorem typesPhase_good (hfp : FpAgree) (s : SchemaDef) (hpl : CharEnumsPlain s.types)
+theorem typesPhase_good (hfp : FpAgree) (s : SchemaDef)
     (h : typesPhase s = .ok ()) :
     (∀ t ∈ s.types, ∃ m, vRoot s.types t = .ok m ∧ Spec.Rules.sizeOf s.types t = some m) ∧
     (∀ q x, (q, x) ∈ allElems s → ElemGood s.types q x) := by
@@ -1104,13 +1092,13 @@ theorem typesPhase_good (hfp : FpAgree) (s : SchemaDef) (hpl : CharEnumsPlain s.
   constructor
   · intro t ht
     obtain ⟨m, hm⟩ := hall t ht
-    exact ⟨m, hm, (vPublic_good hfp s.types hpl _ (Nat.le_refl _) _ t m hm).1⟩
+    exact ⟨m, hm, (vPublic_good hfp s.types _ (Nat.le_refl _) _ t m hm).1⟩
   · intro q x hm
     unfold allElems at hm
     rw [List.mem_flatMap] at hm
     obtain ⟨t, ht, hx⟩ := hm
     obtain ⟨m, hm⟩ := hall t ht
-    exact (vPublic_good hfp s.types hpl _ (Nat.le_refl _) _ t m hm).2 q x hx
+    exact (vPublic_good hfp s.types _ (Nat.le_refl _) _ t m hm).2 q x hx
 
 
 end Local
@@ -1358,12 +1346,12 @@ theorem sizeK_unfolds (types : List Elem) : ∀ k e n, sizeK types k e = some n 
     exact sizeWith_unfolds types _ _ (fun t m hm => ih t m hm) (fun td => unfoldsK_type types k td) e n h
 
 /-- after `validate_types` succeeded the references below every public encoding unfold -/
-theorem cycleViols_nil (hfp : FpAgree) (s : SchemaDef) (hpl : CharEnumsPlain s.types)
+theorem cycleViols_nil (hfp : FpAgree) (s : SchemaDef)
     (h : typesPhase s = .ok ()) : cycleViols s = [] := by
   unfold cycleViols
   rw [List.filterMap_eq_nil_iff]
   intro t ht
-  obtain ⟨m, _, hsz⟩ := (typesPhase_good hfp s hpl h).1 t ht
+  obtain ⟨m, _, hsz⟩ := (typesPhase_good hfp s h).1 t ht
   have : acyclicBelow s.types t = true := sizeK_unfolds s.types _ t m hsz
   simp [this]
 
@@ -1417,7 +1405,272 @@ theorem vLevelHeader_ok (types : List Elem) (user : Path) (hdr : String) (requir
         List.flatMap_eq_nil_iff]
     | _ => simp [fail]
 
-theorem vDataHeader_ok (types : List Elem) (user : Path) (hdr : String) (u : Unit) :
+/-! ### what `validate_types` leaves behind, and the layout of `<data>` headers -/
+
+/-- `validate_types` left the size the specification assigns in every public encoding's
+    context, and the members of every public composite respect their minimum offsets -/
+def SizesAgree (types : List Elem) : Prop :=
+  (∀ t ∈ types, ∃ m, vRoot types t = .ok m ∧ Spec.Rules.sizeOf types t = some m) ∧
+  (∀ n o elems a, Elem.composite n o elems a ∈ types →
+    (memberMinima types 0 elems).filterMap (offsetViol ["types", n]) = [])
+
+theorem sizesAgree_of_phase (hfp : FpAgree) (s : SchemaDef) (h : typesPhase s = .ok ()) : SizesAgree s.types := by
+  obtain ⟨t1, t2⟩ := typesPhase_good hfp s h
+  refine ⟨t1, ?_⟩
+  intro n o elems a hm
+  have hall : (["types", n], Elem.composite n o elems a) ∈ allElems s := by
+    unfold allElems
+    exact List.mem_flatMap.mpr ⟨_, hm, by simp [subElems, typePath, Elem.name]⟩
+  have := (t2 _ _ hall).2.2
+  simpa [elemViols] using this
+
+theorem encPrimSize_spec (types : List Elem) (enc : String) (n : Nat)
+    (h : (underlyingPrim types enc).bind primBytes = some n) : encPrimSize types enc = n := by
+  unfold encPrimSize
+  unfold underlyingPrim at h
+  rw [isPrimitive_eq, lookup_eq]
+  by_cases hp : isPrim enc = true
+  · simp only [hp, ↓reduceIte, Option.bind_some] at h ⊢
+    rw [primSize_eq, h]; rfl
+  · simp only [hp, Bool.false_eq_true, ↓reduceIte] at h ⊢
+    cases hf : findType types enc with
+    | none => simp [hf] at h
+    | some t =>
+      cases t with
+      | type td =>
+        simp only [hf, Option.bind_some] at h ⊢
+        rw [primSize_eq, h]; rfl
+      | _ => simp [hf] at h
+
+section CtxSizes
+variable (types : List Elem) (hsz : SizesAgree types)
+include hsz
+
+mutual
+  theorem ctxSize_spec : ∀ (e : Elem) (n : Nat),
+      sizeWith types (sizeK types types.length) e = some n → ctxSize types e = n
+    | .type t, n, h => by
+      simp only [sizeWith, Option.map_eq_some_iff] at h
+      obtain ⟨b, hb, rfl⟩ := h
+      simp [ctxSize, primSize_eq, hb, Nat.mul_comm]
+    | .enum _ enc _ _ _, n, h => by
+      simp only [sizeWith] at h
+      simpa [ctxSize] using encPrimSize_spec types enc n h
+    | .set _ enc _ _ _, n, h => by
+      simp only [sizeWith] at h
+      simpa [ctxSize] using encPrimSize_spec types enc n h
+    | .ref _ ty _ _, n, h => by
+      simp only [sizeWith] at h
+      simp only [ctxSize, lookup_eq]
+      cases hf : findType types ty with
+      | none => simp [hf] at h
+      | some t =>
+        simp only [hf, Option.bind_some] at h ⊢
+        obtain ⟨m, hm1, hm2⟩ := hsz.1 t (findType_mem types ty t hf)
+        have := sizeK_mono types types.length (types.length + 1) (by omega) t n h
+        unfold Spec.Rules.sizeOf at hm2
+        rw [this] at hm2
+        simp only [Option.some.injEq] at hm2
+        simp [encSize, hm1, hm2]
+    | .composite _ _ elems _, n, h => by
+      simp only [sizeWith] at h
+      simpa [ctxSize] using ctxEnd_spec elems 0 n h
+  theorem ctxEnd_spec : ∀ (elems : List Elem) (cur n : Nat),
+      endWith types (sizeK types types.length) cur elems = some n → ctxEnd types cur elems = n
+    | [], cur, n, h => by simpa [endWith, ctxEnd] using h
+    | e :: rest, cur, n, h => by
+      simp only [endWith] at h
+      simp only [ctxEnd, isConst_eq, offset_eq]
+      by_cases hc : Spec.Rules.isConstElem types e = true
+      · simp only [hc, ↓reduceIte] at h ⊢
+        exact ctxEnd_spec rest cur n h
+      · simp only [hc, Bool.false_eq_true, ↓reduceIte] at h ⊢
+        cases hs : sizeWith types (sizeK types types.length) e with
+        | none => simp [hs] at h
+        | some sz =>
+          simp only [hs] at h
+          rw [ctxSize_spec e sz hs]
+          exact ctxEnd_spec rest _ n h
+end
+
+/-- along a composite whose members respect their minimum offsets: the running offset only
+    grows, and the member called `name` (not a constant) ends inside the composite -/
+theorem ctxMemberOffset_spec (p : Path) (name : String) : ∀ (elems : List Elem) (cur sz : Nat),
+    endWith types (sizeK types types.length) cur elems = some sz →
+    (memberMinima types cur elems).filterMap (offsetViol p) = [] →
+    cur ≤ sz ∧
+    ∀ e, elems.find? (fun x => x.name == name) = some e → Spec.Rules.isConstElem types e = false →
+      ∀ s, sizeWith types (sizeK types types.length) e = some s →
+        cur ≤ ctxMemberOffset types name cur elems ∧ ctxMemberOffset types name cur elems + s ≤ sz := by
+  intro elems
+  induction elems with
+  | nil =>
+    intro cur sz h _
+    simp only [endWith, Option.some.injEq] at h
+    exact ⟨by omega, by intro e he; simp at he⟩
+  | cons x rest ih =>
+    intro cur sz h hoff
+    simp only [endWith] at h
+    by_cases hc : Spec.Rules.isConstElem types x = true
+    · simp only [hc, ↓reduceIte] at h
+      simp only [memberMinima, hc, ↓reduceIte] at hoff
+      obtain ⟨i1, i2⟩ := ih cur sz h hoff
+      refine ⟨i1, ?_⟩
+      intro e he hne s hs
+      by_cases hn : (x.name == name) = true
+      · simp only [List.find?, hn, Option.some.injEq] at he
+        subst he
+        rw [hc] at hne; cases hne
+      · simp only [List.find?, hn] at he
+        have := i2 e he hne s hs
+        simpa [ctxMemberOffset, isConst_eq, hc, hn] using this
+    · simp only [hc, Bool.false_eq_true, ↓reduceIte] at h
+      cases hs : sizeWith types (sizeK types types.length) x with
+      | none => simp [hs] at h
+      | some sx =>
+        simp only [hs] at h
+        have hsizeOf : Spec.Rules.sizeOf types x = some sx := by
+          unfold Spec.Rules.sizeOf; simpa [sizeK] using hs
+        simp only [memberMinima, hc, Bool.false_eq_true, ↓reduceIte, hsizeOf, List.filterMap_cons] at hoff
+        have hov : offsetViol p (x, cur) = none := by
+          cases hx : offsetViol p (x, cur) with
+          | none => rfl
+          | some v => simp [hx] at hoff
+        have hrest : (memberMinima types ((elemOffset x).getD cur + sx) rest).filterMap (offsetViol p) = [] := by
+          simpa [hov] using hoff
+        have hle : cur ≤ (elemOffset x).getD cur := by
+          unfold offsetViol at hov
+          cases ho : elemOffset x with
+          | none => simp
+          | some o =>
+            simp only [ho] at hov
+            by_cases hlt : o < cur
+            · simp [hlt] at hov
+            · simp; omega
+        obtain ⟨i1, i2⟩ := ih _ sz h hrest
+        refine ⟨by omega, ?_⟩
+        intro e he hne s hse
+        have hcx : ctxSize types x = sx := ctxSize_spec types hsz x sx hs
+        by_cases hn : (x.name == name) = true
+        · simp only [List.find?, hn, Option.some.injEq] at he
+          subst he
+          rw [hs] at hse
+          simp only [Option.some.injEq] at hse
+          subst hse
+          simp only [ctxMemberOffset, isConst_eq, hc, Bool.false_eq_true, ↓reduceIte, hn, offset_eq]
+          exact ⟨hle, i1⟩
+        · simp only [List.find?, hn] at he
+          obtain ⟨j1, j2⟩ := i2 e he hne s hse
+          simp only [ctxMemberOffset, isConst_eq, hc, Bool.false_eq_true, ↓reduceIte, hn, offset_eq, hcx]
+          exact ⟨by omega, j2⟩
+end CtxSizes
+
+theorem headerMemberType_ok (types : List Elem) (hp : Path) (elems : List Elem) (name : String) (t : TypeDef) (ep : Path)
+    (h : headerMemberType types hp elems name = .ok (t, ep)) :
+    ∃ e, elems.find? (fun x => x.name == name) = some e ∧
+      (e = .type t ∨ ∃ nm ty o a, e = .ref nm ty o a ∧ findType types ty = some (.type t)) := by
+  unfold headerMemberType at h
+  cases hf : elems.find? (fun x => x.name == name) with
+  | none => simp [hf] at h
+  | some e =>
+    refine ⟨e, rfl, ?_⟩
+    cases e with
+    | type td =>
+      simp only [hf, Except.ok.injEq, Prod.mk.injEq] at h
+      exact Or.inl (by rw [h.1])
+    | ref nm ty o a =>
+      simp only [hf] at h
+      cases hl : findType types ty with
+      | none => simp [hl] at h
+      | some x =>
+        cases x with
+        | type td =>
+          simp only [hl, Except.ok.injEq, Prod.mk.injEq] at h
+          exact Or.inr ⟨nm, ty, o, a, rfl, h.1 ▸ hl⟩
+        | _ => simp [hl] at h
+    | _ => simp [hf] at h
+
+theorem endWith_mem_size (types : List Elem) (j : Elem → Option Nat) : ∀ (elems : List Elem) (cur n : Nat),
+    endWith types j cur elems = some n → ∀ e ∈ elems, Spec.Rules.isConstElem types e = false →
+      ∃ s, sizeWith types j e = some s := by
+  intro elems
+  induction elems with
+  | nil => intro cur n _ e he; simp at he
+  | cons x rest ih =>
+    intro cur n h e he hne
+    simp only [endWith] at h
+    by_cases hc : Spec.Rules.isConstElem types x = true
+    · simp only [hc, ↓reduceIte] at h
+      rcases List.mem_cons.mp he with rfl | he
+      · rw [hc] at hne; cases hne
+      · exact ih cur n h e he hne
+    · simp only [hc, Bool.false_eq_true, ↓reduceIte] at h
+      cases hs : sizeWith types j x with
+      | none => simp [hs] at h
+      | some sx =>
+        simp only [hs] at h
+        rcases List.mem_cons.mp he with rfl | he
+        · exact ⟨sx, hs⟩
+        · exact ih _ n h e he hne
+
+theorem sizeK_type (types : List Elem) (k : Nat) (t : TypeDef) (s : Nat) (h : sizeK types k (.type t) = some s) :
+    ∃ b, primBytes t.prim = some b ∧ s = b * t.length := by
+  cases k with
+  | zero => simp [sizeK] at h
+  | succ k =>
+    simp only [sizeK, sizeWith, Option.map_eq_some_iff] at h
+    obtain ⟨b, hb, rfl⟩ := h
+    exact ⟨b, hb, rfl⟩
+
+/-- the two conditions of `validate_data_header_layout` say exactly that the composite
+    occupies the bytes of its `length` member -/
+theorem dataLayout_iff (types : List Elem) (hsz : SizesAgree types) (n : String) (o : Option Nat) (elems : List Elem)
+    (a : Attrs) (hc : Elem.composite n o elems a ∈ types) (t : TypeDef) (ep : Path)
+    (hm : headerMemberType types ["types", n] elems "length" = .ok (t, ep)) (hl1 : t.length = 1)
+    (hnc : (t.presence == Presence.constant) = false) :
+    (ctxMemberOffset types "length" 0 elems = 0 ∧
+      encSize types (Elem.composite n o elems a) = (primSize? t.prim).getD 0) ↔
+    dataLayoutViols types ["types", n] elems = [] := by
+  obtain ⟨m, hm1, hm2⟩ := hsz.1 _ hc
+  have hend : endWith types (sizeK types types.length) 0 elems = some m := by
+    unfold Spec.Rules.sizeOf at hm2
+    simpa [sizeK, sizeWith] using hm2
+  have hcs : compositeSize types elems = some m := by
+    unfold compositeSize Spec.Rules.sizeOf
+    simpa [sizeK, sizeWith] using hend
+  have henc : encSize types (Elem.composite n o elems a) = m := by simp [encSize, hm1]
+  obtain ⟨e, hfind, hkind⟩ := headerMemberType_ok types _ elems "length" t ep hm
+  have hmem : e ∈ elems := List.mem_of_find?_eq_some hfind
+  have hconst : Spec.Rules.isConstElem types e = false := by
+    rcases hkind with rfl | ⟨nm, ty, o', a', rfl, hf⟩
+    · simpa [Spec.Rules.isConstElem] using hnc
+    · simpa [Spec.Rules.isConstElem, hf] using hnc
+  obtain ⟨s, hs⟩ := endWith_mem_size types _ elems 0 m hend e hmem hconst
+  obtain ⟨b, hb, hsb⟩ : ∃ b, primBytes t.prim = some b ∧ s = b * t.length := by
+    rcases hkind with rfl | ⟨nm, ty, o', a', rfl, hf⟩
+    · simp only [sizeWith, Option.map_eq_some_iff] at hs
+      obtain ⟨b, hb, rfl⟩ := hs
+      exact ⟨b, hb, rfl⟩
+    · simp only [sizeWith, hf, Option.bind_some] at hs
+      exact sizeK_type types _ t s hs
+  rw [hl1, Nat.mul_one] at hsb
+  subst hsb
+  have hoffs := hsz.2 n o elems a hc
+  obtain ⟨_, hw⟩ := ctxMemberOffset_spec types hsz ["types", n] "length" elems 0 m hend hoffs
+  obtain ⟨_, hle⟩ := hw e hfind hconst s hs
+  unfold dataLayoutViols
+  rw [hm, hcs, henc, primSize_eq, hb]
+  simp only [Option.getD_some]
+  constructor
+  · rintro ⟨_, rfl⟩
+    simp [hb]
+  · intro h
+    by_cases heq : m = s
+    · subst heq
+      exact ⟨by omega, rfl⟩
+    · simp [hb, heq] at h
+
+theorem vDataHeader_ok (types : List Elem) (hsz : SizesAgree types) (user : Path) (hdr : String) (u : Unit) :
     vDataHeader types user hdr = .ok u ↔ headerViols types user hdr ["length"] true = [] := by
   unfold vDataHeader headerViols
   rw [lookup_eq]
@@ -1426,24 +1679,46 @@ theorem vDataHeader_ok (types : List Elem) (user : Path) (hdr : String) (u : Uni
   | some e =>
     cases e with
     | composite n o elems a =>
+      have hc := findType_mem types hdr _ hf
       simp only [bind_ok, vLevelHeaderElement_ok, exists_const, ↓reduceIte, List.flatMap_cons, List.flatMap_nil,
         List.append_nil, List.append_eq_nil_iff]
-      rw [levelHeaderElement_eq]
-      unfold headerMemberViols
-      cases hm : headerMemberType types ["types", n] elems "varData" with
-      | error v => simp [fail]
-      | ok x =>
-        obtain ⟨t, ep⟩ := x
-        simp only [Except.ok.injEq, exists_eq_left', need_ok, ↓reduceIte, beq_iff_eq]
-        by_cases h0 : t.length = 0 <;> simp [h0]
+      rw [levelHeaderElement_eq, levelHeaderElement_eq]
+      by_cases hlen : headerMemberViols types ["types", n] elems "length" false = []
+      · simp only [hlen, true_and]
+        -- the `length` member is a non-array, non-constant type
+        unfold headerMemberViols at hlen
+        cases hml : headerMemberType types ["types", n] elems "length" with
+        | error v => simp [hml] at hlen
+        | ok x =>
+          obtain ⟨lt, lp⟩ := x
+          simp only [hml, Bool.false_eq_true, ↓reduceIte] at hlen
+          have hl1 : lt.length = 1 := by
+            by_cases h1 : lt.length = 1
+            · exact h1
+            · simp [h1] at hlen
+          have hnc : (lt.presence == Presence.constant) = false := by
+            cases hx : (lt.presence == Presence.constant) with
+            | false => rfl
+            | true => simp [hl1, hx] at hlen
+          have key := dataLayout_iff types hsz n o elems a hc lt lp hml hl1 hnc
+          cases hm : headerMemberType types ["types", n] elems "varData" with
+          | error v => simp [headerMemberViols, hm, fail]
+          | ok y =>
+            obtain ⟨t, ep⟩ := y
+            simp only [headerMemberViols, hm, Except.ok.injEq, exists_eq_left', need_ok, ↓reduceIte, beq_iff_eq,
+              Prod.exists, Prod.mk.injEq]
+            by_cases h0 : t.length = 0
+            · simp only [h0, ↓reduceIte, true_and, ne_eq, not_true_eq_false]
+              rw [← key]
+              simp only [Bool.not_eq_eq_eq_not, Bool.not_true, Bool.or_eq_false_iff, bne_eq_false_iff_eq]
+              constructor
+              · rintro ⟨_, h1, h2⟩; exact ⟨by simp, h1, h2⟩
+              · rintro ⟨_, h1, h2⟩; exact ⟨(), h1, h2⟩
+            · simp [h0]
+      · simp [hlen]
     | _ => simp [fail]
 
-
 /-! ### fields -/
-
-/-- `validate_types` left the size the specification assigns in every public encoding's context -/
-def SizesAgree (types : List Elem) : Prop :=
-  ∀ t ∈ types, ∃ m, vRoot types t = .ok m ∧ Spec.Rules.sizeOf types t = some m
 
 theorem fieldInfo_ok (types : List Elem) (hsz : SizesAgree types) (p : Path) (f : FieldDef) (sz : Nat) (pr : Presence)
     (h : fieldInfo types p f = .ok (sz, pr)) :
@@ -1466,7 +1741,7 @@ theorem fieldInfo_ok (types : List Elem) (hsz : SizesAgree types) (p : Path) (f 
     | some enc =>
       simp only [hf] at h
       have hmem := findType_mem types _ _ hf
-      obtain ⟨m, hm1, hm2⟩ := hsz enc hmem
+      obtain ⟨m, hm1, hm2⟩ := hsz.1 enc hmem
       unfold actualPresence at h
       rw [isPrimitive_eq] at h
       simp only [hp, Bool.false_eq_true, ↓reduceIte, lookup_eq, hf] at h
@@ -1486,7 +1761,7 @@ theorem fieldInfo_ok (types : List Elem) (hsz : SizesAgree types) (p : Path) (f 
         exact ⟨by simp, h.2.symm, by simp [← h.1, hes, hm2]⟩
       | ref n ty o a => simp [fail] at h
 
-theorem vConstantField_ok (hfp : FpAgree) (types : List Elem) (hpl : CharEnumsPlain types) (p : Path) (f : FieldDef)
+theorem vConstantField_ok (hfp : FpAgree) (types : List Elem) (p : Path) (f : FieldDef)
     (u : Unit) (h : vConstantField types p f = .ok u) : constFieldViols types p f = [] := by
   unfold vConstantField at h
   unfold constFieldViols
@@ -1504,7 +1779,7 @@ theorem vConstantField_ok (hfp : FpAgree) (types : List Elem) (hpl : CharEnumsPl
       | ok x =>
         obtain ⟨n, enc, v⟩ := x
         simp only [hr, bind_ok, Except.ok.injEq, exists_eq_left', need_ok] at h
-        rw [valueRefFits_eq hfp types hpl r n enc f.type v hr hp] at h
+        rw [valueRefFits_eq hfp types r n enc f.type v hr hp] at h
         simp [h]
   · simp only [hp, Bool.false_eq_true, ↓reduceIte, lookup_eq] at h ⊢
     cases hf : findType types f.type with
@@ -1527,7 +1802,7 @@ theorem vConstantField_ok (hfp : FpAgree) (types : List Elem) (hpl : CharEnumsPl
             simp [h]
       | _ => rfl
 
-theorem vFields_ok (hfp : FpAgree) (types : List Elem) (hpl : CharEnumsPlain types) (hsz : SizesAgree types) (lp : Path) :
+theorem vFields_ok (hfp : FpAgree) (types : List Elem) (hsz : SizesAgree types) (lp : Path) :
     ∀ (fields : List FieldDef) (cur e : Nat), vFields types lp cur fields = .ok e →
       (∀ f ∈ fields, symbolicName f.name = true ∧ fieldViols types lp f = []) ∧
       (fieldMinima types cur fields).filterMap (fieldOffsetViol lp) = [] ∧ fieldsEnd types cur fields = some e := by
@@ -1550,7 +1825,7 @@ theorem vFields_ok (hfp : FpAgree) (types : List Elem) (hpl : CharEnumsPlain typ
     · simp only [hc, ↓reduceIte, bind_ok, exists_const] at hrest
       obtain ⟨_, hcf, hr⟩ := hrest
       obtain ⟨r1, r2, r3⟩ := ih cur e hr
-      have hcv := vConstantField_ok hfp types hpl _ f _ hcf
+      have hcv := vConstantField_ok hfp types _ f _ hcf
       refine ⟨?_, by simp [fieldMinima, hc, r2], by simp [fieldsEnd, hc, r3]⟩
       intro f' hf'
       rcases List.mem_cons.mp hf' with rfl | hf'
@@ -1591,7 +1866,7 @@ def LevelGood (types : List Elem) (l : LevelView) : Prop :=
   (∀ f ∈ l.fields, symbolicName f.name = true) ∧ (∀ g ∈ l.groups, symbolicName (gName g) = true) ∧
   (∀ d ∈ l.datas, symbolicName d.name = true) ∧ levelViols types l = []
 
-theorem vDatas_ok (types : List Elem) (lp : Path) :
+theorem vDatas_ok (types : List Elem) (hsz : SizesAgree types) (lp : Path) :
     ∀ (datas : List DataDef) (u : Unit), vDatas types lp datas = .ok u →
       ∀ d ∈ datas, symbolicName d.name = true ∧ headerViols types (lp ++ [d.name]) d.type ["length"] true = [] := by
   intro datas
@@ -1599,7 +1874,7 @@ theorem vDatas_ok (types : List Elem) (lp : Path) :
   | nil => intro u _ d hd; simp at hd
   | cons d rest ih =>
     intro u h d' hd'
-    simp only [vDatas, bind_ok, vName_ok, vDataHeader_ok, exists_const] at h
+    simp only [vDatas, bind_ok, vName_ok, vDataHeader_ok types hsz, exists_const] at h
     obtain ⟨h1, h2, h3⟩ := h
     rcases List.mem_cons.mp hd' with rfl | hd'
     · exact ⟨h1, h2⟩
@@ -1636,8 +1911,8 @@ theorem level_good (types : List Elem) (lp : Path) (bl : Option Nat) (fields : L
   exact ⟨⟨⟨⟨fun f h => (hf.1 f h).2, hf.2.1⟩, hb⟩, fun g h => (hg g h).2⟩, fun d h => (hd d h).2⟩
 
 section Levels
-variable (hfp : FpAgree) (types : List Elem) (hpl : CharEnumsPlain types) (hsz : SizesAgree types)
-include hfp hpl hsz
+variable (hfp : FpAgree) (types : List Elem) (hsz : SizesAgree types)
+include hfp hsz
 
 mutual
   theorem vGroup_ok :
@@ -1648,10 +1923,10 @@ mutual
     | lp, .mk n id dim bl fields groups datas a, u, h => by
       simp only [vGroup, bind_ok, vName_ok, vLevelHeader_ok, exists_const] at h
       obtain ⟨h1, h2, off, hoff, _, hbl, _, hgs, hds⟩ := h
-      have hf := vFields_ok hfp types hpl hsz (lp ++ [n]) fields 0 off hoff
+      have hf := vFields_ok hfp types hsz (lp ++ [n]) fields 0 off hoff
       have hb := blockLength_ok types (lp ++ [n]) bl fields off hf.2.2 _ hbl
       obtain ⟨g1, g2⟩ := vGroups_ok (lp ++ [n]) groups _ hgs
-      have hd := vDatas_ok types (lp ++ [n]) datas _ hds
+      have hd := vDatas_ok types hsz (lp ++ [n]) datas _ hds
       refine ⟨⟨h1, h2⟩, ?_⟩
       intro l hl
       simp only [groupLevels, List.mem_cons] at hl
@@ -1685,10 +1960,10 @@ theorem vMessage_ok (m : MessageDef) (u : Unit) (h : vMessage types m = .ok u) :
     symbolicName m.name = true ∧ ∀ l ∈ messageLevels m, LevelGood types l := by
   simp only [vMessage, bind_ok, vName_ok, exists_const] at h
   obtain ⟨h1, off, hoff, _, hbl, _, hgs, hds⟩ := h
-  have hf := vFields_ok hfp types hpl hsz _ m.fields 0 off hoff
+  have hf := vFields_ok hfp types hsz _ m.fields 0 off hoff
   have hb := blockLength_ok types _ m.blockLength m.fields off hf.2.2 _ hbl
-  obtain ⟨g1, g2⟩ := vGroups_ok hfp types hpl hsz _ m.groups _ hgs
-  have hd := vDatas_ok types _ m.datas _ hds
+  obtain ⟨g1, g2⟩ := vGroups_ok hfp types hsz _ m.groups _ hgs
+  have hd := vDatas_ok types hsz _ m.datas _ hds
   refine ⟨h1, ?_⟩
   intro l hl
   simp only [messageLevels, List.mem_cons] at hl
@@ -1699,18 +1974,18 @@ theorem vMessage_ok (m : MessageDef) (u : Unit) (h : vMessage types m = .ok u) :
 end Levels
 
 /-- after a successful `validate_messages`: the message header and every level of every message obey their rules -/
-theorem messagesPhase_good (hfp : FpAgree) (s : SchemaDef) (hpl : CharEnumsPlain s.types) (hsz : SizesAgree s.types)
+theorem messagesPhase_good (hfp : FpAgree) (s : SchemaDef) (hsz : SizesAgree s.types)
     (h : messagesPhase s = .ok ()) :
     headerViols s.types ["schema"] s.headerType ["schemaId", "templateId", "version", "blockLength"] false = [] ∧
     (∀ m ∈ s.messages, symbolicName m.name = true) ∧ ∀ l ∈ allLevels s, LevelGood s.types l := by
   simp only [messagesPhase, bind_ok, vLevelHeader_ok, exists_const, allOk_ok] at h
   obtain ⟨h1, h2⟩ := h
-  refine ⟨h1, fun m hm => (vMessage_ok hfp s.types hpl hsz m _ (h2 m hm)).1, ?_⟩
+  refine ⟨h1, fun m hm => (vMessage_ok hfp s.types hsz m _ (h2 m hm)).1, ?_⟩
   intro l hl
   unfold allLevels at hl
   rw [List.mem_flatMap] at hl
   obtain ⟨m, hm, hl⟩ := hl
-  exact (vMessage_ok hfp s.types hpl hsz m _ (h2 m hm)).2 l hl
+  exact (vMessage_ok hfp s.types hsz m _ (h2 m hm)).2 l hl
 
 
 end Messages
@@ -2229,16 +2504,16 @@ theorem nameViols_nil (s : SchemaDef)
 
 /-- **completeness of rejection**: a schema the model accepts breaks none of the
     rules sbeppc has a diagnostic for — every rule-breaking schema is rejected. -/
-theorem check_ok_no_violation (hfp : FpAgree) (s : SchemaDef) (hpl : CharEnumsPlain s.types)
-    (h : check s = .ok ()) : enforcedViolations s = [] := by
+theorem check_ok_no_violation (hfp : FpAgree) (s : SchemaDef)
+    (h : check s = .ok ()) : violations s = [] := by
   obtain ⟨hp, ht, hm, hc⟩ := (check_phases s).mp h
   obtain ⟨p1, p2, p3⟩ := parsePhase_good s hp
-  obtain ⟨t1, t2⟩ := typesPhase_good hfp s hpl ht
-  have t3 := cycleViols_nil hfp s hpl ht
-  obtain ⟨m1, m2, m3⟩ := messagesPhase_good hfp s hpl t1 hm
+  obtain ⟨t1, t2⟩ := typesPhase_good hfp s ht
+  have t3 := cycleViols_nil hfp s ht
+  obtain ⟨m1, m2, m3⟩ := messagesPhase_good hfp s (sizesAgree_of_phase hfp s ht) hm
   obtain ⟨c1, c2, c3, c4⟩ := cppPhase_good s hc
   have n1 := nameViols_nil s t2 c2 m2 c3 m3 c4 c1
-  unfold enforcedViolations
+  unfold violations
   simp only [p1, p2, n1, t3, m1, List.nil_append, List.append_nil, List.append_eq_nil_iff, List.flatMap_eq_nil_iff]
   exact ⟨fun x hx => (t2 x.1 x.2 hx).2.2, fun l hl => (m3 l hl).2.2.2⟩
 
@@ -2738,9 +3013,9 @@ theorem set_good_size (types : List Elem) (p : Path) (n enc : String) (o : Optio
     · simp [hi] at h
 
 section Complete
-variable (hfp : FpAgree) (types : List Elem) (hpl : CharEnumsPlain types) (hnd : (lowerNames types).Nodup)
+variable (hfp : FpAgree) (types : List Elem) (hnd : (lowerNames types).Nodup)
   (G : AllGood types) (j : Nat) (ihj : ∀ j', j' < j → WalkOk types j')
-include hfp hpl hnd G ihj
+include hfp hnd G ihj
 
 mutual
   theorem vElemWith_complete : ∀ (e : Elem) (vis : List String) (p : Path) (kf : Nat),
@@ -2750,7 +3025,7 @@ mutual
     | .type t, vis, p, kf, _, _, hg, _, _ => by
       obtain ⟨g1, _, g3⟩ := hg p (.type t) (by simp [subElems])
       simp only [vElemWith]
-      exact ⟨_, (vType_ok hfp types hpl p t _).mpr ⟨g1, by simpa [elemViols] using g3, rfl⟩⟩
+      exact ⟨_, (vType_ok hfp types p t _).mpr ⟨g1, by simpa [elemViols] using g3, rfl⟩⟩
     | .enum n enc o vs a, vis, p, kf, _, _, hg, _, _ => by
       obtain ⟨g1, g2, g3⟩ := hg p (.enum n enc o vs a) (by simp [subElems])
       obtain ⟨sz, hsz⟩ := enum_good_size types p n enc o vs a g3
@@ -2852,7 +3127,7 @@ mutual
 end
 end Complete
 
-theorem walkOk_all (hfp : FpAgree) (types : List Elem) (hpl : CharEnumsPlain types) (hnd : (lowerNames types).Nodup)
+theorem walkOk_all (hfp : FpAgree) (types : List Elem) (hnd : (lowerNames types).Nodup)
     (G : AllGood types) : ∀ j, WalkOk types j := by
   intro j
   induction j using Nat.strongRecOn with
@@ -2868,11 +3143,11 @@ theorem walkOk_all (hfp : FpAgree) (types : List Elem) (hpl : CharEnumsPlain typ
     | succ kf =>
       simp only [vPublic]
       simp only [unfoldsK] at hu
-      exact vElemWith_complete hfp types hpl hnd G j ih T vis _ kf hu hv (G T hT) hfu (by omega)
+      exact vElemWith_complete hfp types hnd G j ih T vis _ kf hu hv (G T hT) hfu (by omega)
 
 /-- **the walk accepts what the specification accepts**: unique names, every encoding good,
     the references below every public encoding unfold ⇒ `validate_types` succeeds -/
-theorem typesPhase_complete (hfp : FpAgree) (s : SchemaDef) (hpl : CharEnumsPlain s.types)
+theorem typesPhase_complete (hfp : FpAgree) (s : SchemaDef)
     (hnd : (lowerNames s.types).Nodup) (hgood : ∀ q x, (q, x) ∈ allElems s → ElemGood s.types q x)
     (hacyc : cycleViols s = []) : typesPhase s = .ok () := by
   unfold typesPhase
@@ -2891,7 +3166,7 @@ theorem typesPhase_complete (hfp : FpAgree) (s : SchemaDef) (hpl : CharEnumsPlai
     | false => simp [hx] at this
   -- enter at the minimal level at which `t` unfolds: nothing in progress (only `t`) unfolds below it
   obtain ⟨j', _, hl1, hl2⟩ := first_level s.types t _ hu
-  refine walkOk_all hfp s.types hpl hnd G j' t ht [t.name] _ hl1 ?_ ⟨by simp, ?_, by simp⟩ (Nat.le_refl _)
+  refine walkOk_all hfp s.types hnd G j' t ht [t.name] _ hl1 ?_ ⟨by simp, ?_, by simp⟩ (Nat.le_refl _)
   · intro v hv u hfu
     simp only [List.mem_singleton] at hv
     subst hv
